@@ -93,7 +93,7 @@ func genDefect(t *rapid.T) defect {
 		return defect{"uncompilable-regex", q, func(r *rux.Router) { r.Add(q, noop, methods...) }}
 	case 5:
 		opt := rapid.SampledFrom([]string{"[/b]", "[/{o}]", "[.html]", "[/b[/c]]"}).Draw(t, "opt")
-		more := rapid.SampledFrom([]string{"/c", "c", "/{m}", "[x]y", "]", "/"}).Draw(t, "more")
+		more := rapid.SampledFrom([]string{"/c", "c", "/{m}", "[x]y", "]", "/", "[/c]", "[/{m}]", "[.x]"}).Draw(t, "more")
 		base := model.Pattern{Segs: p.Segs}.String()
 		if base == "/" {
 			base = "/a"
